@@ -137,6 +137,8 @@ class C02(Prop):
         else:
             bl.compare_portfolio(case, impl, mod, self.FIELDS, j)
             holdings_predicate_pf(case, impl, j)
+            for rs in impl.get('restored', []):
+                j.failures.append('a Position rebuilt from the stored fields of %s with the documented constructor differs (%s): %s' % (rs[0], rs[1], rs[2:]))
             for sp in impl.get('sparse_reads', []):
                 j.failures.append('the same operations, state read only every third step: step %s reads %s, read after every step it was %s' % tuple(sp[:3]))
             for pr in impl.get('probe', []):
